@@ -1044,7 +1044,7 @@ class WaveguideWriter(Writer):
 
     def __init__(self, wg_list: list[Waveguide | list[Waveguide]], **param) -> None:
         super().__init__(**param)
-        self.obj_list: list[Waveguide | list[Waveguide]] = wg_list
+        self.obj_list: list[Waveguide | list[Waveguide]] = list(wg_list)  # own list: append/extend must not grow the caller's
 
         self._param: dict[str, Any] = dict(**param)
         self._export_path = self.CWD / (self.export_dir or '')
@@ -1358,7 +1358,7 @@ class NasuWriter(Writer):
 
     def __init__(self, nw_list: list[NasuWaveguide], **param) -> None:
         super().__init__(**param)
-        self.obj_list: list[NasuWaveguide] = nw_list
+        self.obj_list: list[NasuWaveguide] = list(nw_list)  # own list: append/extend must not grow the caller's
 
         self._param: dict[str, Any] = dict(**param)
         self._export_path = self.CWD / (self.export_dir or '')
